@@ -261,7 +261,13 @@ def pretty_steps(text: str) -> list[tuple]:
             continue
         if w in STEP_NAMES:
             out.append((w, line))
-        elif not any(line.startswith(p) for p in ('sFresh,', 'pos,', 'neg,', 'appctx,', 'eFresh,')):
+        elif any(line.startswith(p) for p in ('sFresh,', 'pos,', 'neg,', 'appctx,', 'eFresh,')):
+            # continuation of the MetaVar step: its constraint lists, one line each
+            if out and out[-1][0] == 'MetaVar':
+                out[-1] = ('MetaVar', out[-1][1] + '\n' + line)
+            else:
+                out.append(('?', line))
+        else:
             out.append(('?', line))
     return out
 
@@ -284,7 +290,31 @@ def _operands_agree(name: str, line: str, ins: tuple, symnum: dict) -> bool:
                     num += ch
                 else:
                     break
-            return int(num) == ins[1]
+            if int(num) != ins[1]:
+                return False
+            # the five constraint lists: what the step lists against what the instruction carries
+            import re
+
+            want: list = []
+            pos = 2
+            for _ in range(5):
+                if ins[0] == 'CleanMetaVar':
+                    want.append([])
+                    continue
+                ln = ins[pos]
+                want.append(list(ins[pos + 1 : pos + 1 + ln]))
+                pos += 1 + ln
+            got = []
+            for nm in ('eFresh', 'sFresh', 'pos', 'neg', 'appctx'):
+                mm = re.search(nm + r', len=(\d+) ((?:\S+ )*)', rest)
+                if mm is None:
+                    got.append([])
+                else:
+                    items = [int(t[1:]) for t in mm.group(2).split()]
+                    if len(items) != int(mm.group(1)):
+                        return False
+                    got.append(items)
+            return got == want
         if name == 'Instantiate':
             ks = [int(x) for x in line[len('Instantiate '):].split(',') if x.strip()]
             return list(reversed(ks)) == list(ins[2:]) and len(ks) == ins[1]
